@@ -36,6 +36,12 @@ PROPS = {
     "C02": dict(pkg="c02", level="exploration",
                 quick=[R(checks=1200)],
                 thorough=[R(checks=6000, shards=16, timeout=1500)]),
+    "C03": dict(pkg="c03", level="exploration",
+                quick=[R(checks=1500)],
+                thorough=[R(checks=6000, shards=16, timeout=1500)]),
+    "C04": dict(pkg="c04", level="exploration",
+                quick=[R(checks=1500)],
+                thorough=[R(checks=5000, shards=16, timeout=1500)]),
     "C05": dict(pkg="c05", level="exploration",
                 quick=[R(checks=800)],
                 thorough=[R(checks=4000, shards=16, timeout=1500)]),
